@@ -371,6 +371,12 @@ func (s *tlSys) apply(op string) bool {
 		var sec int
 		fmt.Sscanf(op, "t%d", &sec)
 		d := time.Duration(sec) * time.Second
+		if strings.HasPrefix(op, "ms") {
+			// the caller's clock has a sub-second part: Redis time is counted in whole seconds of it
+			var ms int
+			fmt.Sscanf(op, "ms%d", &ms)
+			d, sec = time.Duration(ms)*time.Millisecond, 1
+		}
 		vrt.Advance(d)
 		s.s.FastForward(d)
 		vrt.Settle()
@@ -420,7 +426,7 @@ func TestVerifTokenLimit(t *testing.T) {
 			depth = 8
 		}
 		ttl := c.burst * 2 / c.rate
-		ops := []string{"allow:1", "allow:2", fmt.Sprintf("allow:%d", c.burst), fmt.Sprintf("allow:%d", c.burst+1), "t0", "t1", "t2", fmt.Sprintf("t%d", ttl), fmt.Sprintf("t%d", ttl+1), "down", "up", "monitor", "newlimiter"}
+		ops := []string{"allow:1", "allow:2", fmt.Sprintf("allow:%d", c.burst), fmt.Sprintf("allow:%d", c.burst+1), "t0", "ms600", "t1", "t2", fmt.Sprintf("t%d", ttl), fmt.Sprintf("t%d", ttl+1), "down", "up", "monitor", "newlimiter"}
 		vrt.BFS(vrt.Options{Name: fmt.Sprintf("tokenlimit/rate=%d/burst=%d/callerclock=%+v", c.rate, c.burst, c.skew), Budget: vrt.FairBudget(len(mine) - i)}, depth, ops, func(r *vrt.Run, hist []string) vrt.Step {
 			// the per-address breaker must never shed calls here (C01/C12 cover it)
 			vrt.SetRandHook(func() (int64, bool) { return vrt.FloatDraw(1 - 1.0/(1<<53)), true })
